@@ -535,7 +535,31 @@ func constLoopBound(fn *ssa.Function) (int64, bool) {
 			return
 		}
 		bin, ok := br.Cond.(*ssa.BinOp)
-		if !ok || (bin.Op != token.LSS && bin.Op != token.LEQ) {
+		if !ok {
+			return
+		}
+		// counting down from a constant: `for n := K; n > 0; n--`
+		if phi, isPhi := bin.X.(*ssa.Phi); isPhi && (bin.Op == token.GTR || bin.Op == token.GEQ) {
+			if lo, isK := an.ConstInt(bin.Y); isK {
+				var init int64
+				okInit, okStep := false, false
+				for _, e := range phi.Edges {
+					if k0, isC := an.ConstInt(e); isC {
+						init, okInit = k0, true
+					}
+					if b, isB := e.(*ssa.BinOp); isB && b.Op == token.SUB && b.X == ssa.Value(phi) {
+						if s, isC := an.ConstInt(b.Y); isC && s > 0 {
+							okStep = true
+						}
+					}
+				}
+				if okInit && okStep {
+					bound, found = init-lo, true
+					return
+				}
+			}
+		}
+		if bin.Op != token.LSS && bin.Op != token.LEQ {
 			return
 		}
 		phi, ok := bin.X.(*ssa.Phi)
